@@ -203,6 +203,9 @@ func body(ctx context.Context, n *NodeSpec, tag string, in string) (string, erro
 		return "", fmt.Errorf("wrapped: %w", &InjectedError{Node: tag, EOF: n.FaultEOF})
 	case "panic", "pspanic":
 		panic("injected panic in " + tag)
+	case "preherr":
+		// a node without pre-handler cannot fail there: it fails in its body instead
+		return "", fmt.Errorf("wrapped: %w", &InjectedError{Node: tag, EOF: n.FaultEOF})
 	case "cancel":
 		if env.Cancel != nil {
 			env.Cancel()
@@ -220,7 +223,7 @@ func chunk(s string, k int) []string {
 	if k <= 1 {
 		return []string{s}
 	}
-	out := make([]string, 0, k)
+	out := make([]string, 0, k+2) // room to spare, as a slice built by append usually has
 	n := len(s)
 	prev := 0
 	for i := 1; i <= k; i++ {
@@ -956,7 +959,8 @@ func toAny[O any](sr *schema.StreamReader[O]) *schema.StreamReader[any] {
 }
 
 func fromChunks[I any](chunks []any) (*schema.StreamReader[I], error) {
-	arr := make([]I, 0, len(chunks))
+	// gathered with room to spare, as a slice built by append usually is: the spare capacity is the caller's
+	arr := make([]I, 0, len(chunks)+3)
 	for _, c := range chunks {
 		x, ok := c.(I)
 		if !ok {
